@@ -114,8 +114,11 @@ type Unicode struct {
 }
 
 type Numeric struct {
-	One int `db:"1"`
-	Two int `db:"22"`
+	One   int `db:"1"`
+	Two   int `db:"22"`
+	Ten   int `db:"10"`
+	Nine  int `db:"9"`
+	Seven int `db:"007"`
 }
 
 type NoTags struct {
@@ -226,6 +229,9 @@ type IntMap map[string]int
 type MyStr string
 type KM map[MyStr]any
 type BadMap map[int]any
+
+// a map whose values are pointers
+type PtrMap map[string]*int
 
 type IntSlice []int
 type StrSlice []string
@@ -440,7 +446,7 @@ var zooSamples = []zooEntry{
 	{"Quoted", Quoted{}}, {"Unicode", Unicode{}}, {"Numeric", Numeric{}}, {"NoTags", NoTags{}},
 	{"Unexported", Unexported{}}, {"BadFlag", BadFlag{}}, {"BadEmpty", BadEmpty{}}, {"BadQuote", BadQuote{}},
 	{"BadChar", BadChar{}}, {"BadDigit", BadDigit{}}, {"DupTag", DupTag{}}, {"DupEmbed", DupEmbed{}},
-	{"Rec", Rec{}}, {"RecA", RecA{}}, {"RecRoot", RecRoot{}}, {"M", sqlair.M{}}, {"IntMap", IntMap{}}, {"KM", KM{}}, {"BadMap", BadMap{}},
+	{"Rec", Rec{}}, {"RecA", RecA{}}, {"RecRoot", RecRoot{}}, {"M", sqlair.M{}}, {"IntMap", IntMap{}}, {"KM", KM{}}, {"BadMap", BadMap{}}, {"PtrMap", PtrMap{}},
 	{"S", sqlair.S{}}, {"IntSlice", IntSlice{}}, {"StrSlice", StrSlice{}}, {"PersonSlice", PersonSlice{}},
 	{"Priced", Priced{}}, {"TaggedEmbed", TaggedEmbed{}}, {"EmbedUnexported", EmbedUnexported{}},
 	{"EmbedNonStruct", EmbedNonStruct{}}, {"Mixed", Mixed{}}, {"Doc", Doc{}}, {"Diamond", Diamond{}}, {"Twice", Twice{}}, {"Tracked", Tracked{}}, {"BlobOpt", BlobOpt{}}, {"PtrScan", PtrScan{}}, {"Wide", Wide{}}, {"Bill", Bill{}}, {"Loose", Loose{}}, {"Page", Page[int]{}}, {"KV", KV[int]{}}, {"List", List[int]{}},
@@ -450,7 +456,7 @@ var zooSamples = []zooEntry{
 
 // good types for statement generation (Prepare succeeds with them)
 var goodStructs = []string{"Person", "Address", "Manager", "Embed", "EmbedPtr", "Deep", "Deep4", "Contact", "AutoID", "AutoID", "Omit", "PtrFields", "Quoted", "Unicode", "Numeric", "Priced", "TaggedEmbed", "EmbedUnexported", "EmbedNonStruct", "Mixed", "Doc", "Diamond", "Twice", "Tracked", "BlobOpt", "PtrScan", "Wide", "Bill", "Loose"}
-var goodMaps = []string{"M", "IntMap", "KM"}
+var goodMaps = []string{"M", "IntMap", "KM", "PtrMap"}
 var goodSlices = []string{"S", "IntSlice", "StrSlice", "PersonSlice"}
 
 func zooByName(name string) any {
